@@ -771,7 +771,10 @@ def inline_fragments(idx: PyIndex, fi: FuncInfo, keep=None, depth: int = 2) -> F
     folded = _Fold(idx, {}).visit(fn)           # constant arguments decide the helper's own tests
     if isinstance(folded, ast.FunctionDef) and folded.body:
         fn = folded
+    fn = Canon().visit(fn)
+    fn = _SimplifyIfExp().visit(fn)
     fn = _HoistIfExp().visit(fn)                # P + (A if T else B)  ->  (P + A) if T else (P + B): each alternative is one text again
+    fn = _SimplifyIfExp().visit(fn)
     fn = Canon().visit(fn)
     ast.fix_missing_locations(fn)
     return FuncInfo(fi.module, fi.qualname, fn, fi.cls, fi.kind)
@@ -797,6 +800,90 @@ def _const_locals(fn: ast.FunctionDef) -> ast.FunctionDef:
     return out
 
 
+class _Assume(ast.NodeTransformer):
+    """Rewrite an expression under the assumption that the (side-effect free) test `src` comes out as `outcome`: conditional expressions on the same test
+    take their arm, conjunctions / disjunctions in TESTS that contain it are simplified.  `src=None`: only fold literal operands."""
+    def __init__(self, src: Optional[str], outcome: bool = True):
+        self.src, self.outcome = src, outcome
+
+    def _known(self, t) -> Optional[bool]:
+        if self.src is not None and ast.unparse(t) == self.src:
+            return self.outcome
+        if isinstance(t, ast.UnaryOp) and isinstance(t.op, ast.Not):
+            r = self._known(t.operand)
+            return None if r is None else not r
+        if isinstance(t, ast.Constant):
+            return bool(t.value)
+        return None
+
+    def simplify_test(self, t):
+        """t is used for its truth value only"""
+        if isinstance(t, ast.BoolOp):
+            is_and = isinstance(t.op, ast.And)
+            vals = []
+            for v in t.values:
+                v = self.simplify_test(v)
+                k = self._known(v)
+                if k is None:
+                    vals.append(v)
+                elif k != is_and:           # a false operand of `and` / a true operand of `or` decides the whole
+                    return ast.copy_location(ast.Constant(value=k), t)
+            if not vals:
+                return ast.copy_location(ast.Constant(value=is_and), t)
+            return vals[0] if len(vals) == 1 else ast.copy_location(ast.BoolOp(op=t.op, values=vals), t)
+        if isinstance(t, ast.UnaryOp) and isinstance(t.op, ast.Not):
+            inner = self.simplify_test(t.operand)
+            k = self._known(inner)
+            if k is not None:
+                return ast.copy_location(ast.Constant(value=not k), t)
+            return ast.copy_location(ast.UnaryOp(op=ast.Not(), operand=inner), t)
+        k = self._known(t)
+        if k is not None and not isinstance(t, ast.Constant):
+            return ast.copy_location(ast.Constant(value=k), t)
+        return t
+
+    def visit_IfExp(self, node):
+        node.test = self.simplify_test(node.test)
+        k = self._known(node.test)
+        if k is True:
+            return self.visit(node.body)
+        if k is False:
+            return self.visit(node.orelse)
+        self.generic_visit(node)
+        return node
+
+
+def _facts_of(test: ast.AST, outcome: bool):
+    """the call-free sub-tests whose outcome follows from `test` coming out as `outcome`"""
+    out = [(test, outcome)]
+    if isinstance(test, ast.UnaryOp) and isinstance(test.op, ast.Not):
+        out += _facts_of(test.operand, not outcome)
+    elif isinstance(test, ast.BoolOp) and ((isinstance(test.op, ast.And) and outcome) or (isinstance(test.op, ast.Or) and not outcome)):
+        for v in test.values:
+            out += _facts_of(v, outcome)
+    return out
+
+
+def _assume_all(node: ast.AST, test: ast.AST, outcome: bool) -> ast.AST:
+    for t, o in _facts_of(test, outcome):
+        if not isinstance(t, ast.Constant):
+            node = _Assume(ast.unparse(t), o).visit(node)
+    return node
+
+
+class _SimplifyIfExp(ast.NodeTransformer):
+    """`(P if c else Q) if c else R` -> `P if c else R`; literal operands in the tests of conditional expressions are folded (`c and True` -> `c`)."""
+    def visit_IfExp(self, node):
+        node.test = _Assume(None).simplify_test(node.test)
+        if isinstance(node.test, ast.Constant):
+            return self.visit(node.body if node.test.value else node.orelse)
+        if _HoistIfExp._pure(node.test):
+            node.body = _assume_all(node.body, node.test, True)
+            node.orelse = _assume_all(node.orelse, node.test, False)
+        self.generic_visit(node)
+        return node
+
+
 class _HoistIfExp(ast.NodeTransformer):
     """A conditional piece inside a concatenation or an f-string makes the whole text conditional (tests are side-effect free in the code this is used on;
     at most three conditional pieces per text)."""
@@ -810,6 +897,8 @@ class _HoistIfExp(ast.NodeTransformer):
                 a, b = copy.deepcopy(node), copy.deepcopy(node)
                 setattr(a, side, v.body)
                 setattr(b, side, v.orelse)
+                if self._pure(v.test):
+                    a, b = _assume_all(a, v.test, True), _assume_all(b, v.test, False)
                 out = ast.IfExp(test=v.test, body=self.visit_BinOp(a) if isinstance(a, ast.BinOp) else a, orelse=self.visit_BinOp(b) if isinstance(b, ast.BinOp) else b)
                 return ast.copy_location(out, node)
         return node
@@ -821,6 +910,8 @@ class _HoistIfExp(ast.NodeTransformer):
                 a, b = copy.deepcopy(node), copy.deepcopy(node)
                 a.values[i] = ast.FormattedValue(value=v.value.body, conversion=-1, format_spec=None)
                 b.values[i] = ast.FormattedValue(value=v.value.orelse, conversion=-1, format_spec=None)
+                if self._pure(v.value.test):
+                    a, b = _assume_all(a, v.value.test, True), _assume_all(b, v.value.test, False)
                 out = ast.IfExp(test=v.value.test, body=self.visit_JoinedStr(a), orelse=self.visit_JoinedStr(b))
                 for x in ast.walk(out):
                     if not hasattr(x, 'lineno'):
@@ -830,7 +921,11 @@ class _HoistIfExp(ast.NodeTransformer):
 
     @staticmethod
     def _depth(node) -> int:
-        return sum(1 for x in ast.walk(node) if isinstance(x, ast.IfExp))
+        return len({ast.unparse(x.test) for x in ast.walk(node) if isinstance(x, ast.IfExp)})
+
+    @staticmethod
+    def _pure(t) -> bool:
+        return not any(isinstance(x, (ast.Call, ast.NamedExpr, ast.Await, ast.Yield)) for x in ast.walk(t))
 
 
 def inlined_info(idx: PyIndex, fi: FuncInfo, depth: int = 2, keep=None, types: Optional[Dict[str, str]] = None) -> FuncInfo:
